@@ -91,7 +91,7 @@ def run(ctx):
                 'signal types; (offset, n) incl. 0, len, frame and file boundaries +-1, n = 0, out-of-range and negative requests; '
                 'random read histories, 16 concurrent threads, Dask reads, adjacent reads; offset_at / time_at round trips, absolute and '
                 'relative. distinct by (reader, offset, n, mode).')
-    ctx.trusted = ['Coq 8.16.1 kernel (axiom-free)', 'baseband\'s decoding of the file formats (the independent path reads the same files through '
+    ctx.trusted = ['translator T13 translate/py_reader2coq.py (time_at, offset_at, guards of read, seek/read arguments; _read_data pinned whole)', 'Coq 8.16.1 kernel (axiom-free)', 'baseband\'s decoding of the file formats (the independent path reads the same files through '
                    'baseband.open directly)', 'CPython threads / the OS for the concurrent runs (observed, not modelled: the theorem is about '
                    'interleavings of the atomic handle steps)']
     ctx.assumptions = ['real-sampled reads are compared with an independent analytic conversion within 2e-5*max|x| (complex64 output)']
